@@ -15,7 +15,7 @@ var libNeutral = map[string]bool{
 	"strings.HasPrefix": true, "strings.HasSuffix": true, "strings.Contains": true, "strings.Index": true,
 	"strings.TrimPrefix": true, "strings.TrimSuffix": true, "strings.ContainsRune": true, "strings.IndexByte": true,
 	"strings.LastIndex": true,
-	"time.Now": true, "(time.Time).Add": true, "(time.Time).After": true, "(time.Time).Before": true, "(time.Time).Sub": true,
+	"time.Now":          true, "(time.Time).Add": true, "(time.Time).After": true, "(time.Time).Before": true, "(time.Time).Sub": true,
 	"(time.Time).Unix": true, "time.Unix": true, "(time.Time).IsZero": true, "time.Since": true, "time.Until": true, "(time.Time).Equal": true,
 	"(time.Duration).Seconds": true, "(time.Time).Truncate": true, "(time.Time).UnixNano": true,
 	"errors.New": true, "fmt.Errorf": true, "fmt.Sprintf": true, "fmt.Sprint": true, "errors.Is": true,
